@@ -43,3 +43,12 @@ def add_obligations(pack, tier):
                              'kind': 'bounded native: ieee14.raw, Line x / tap / b, PV p0 / v0, PQ p0 changed between two runs on one object'})
         if r.get('confirmed'):
             pack.violation(name, {'bounded': True, 'inputs': r.get('inputs'), 'observed': r.get('observed'), 'native_cmd': r.get('native_cmd')})
+    from contracts import bounded_pflow_variants as BPV
+    name = 'C01/andes/routines/pflow.py:PFlow.run/bounded:every-variant-that-reports-convergence-returns-a-point-with-a-small-residual'
+    r = native_guard(pack, name, BPV.run)
+    if r is not None:
+        nv, badv = r
+        pack.bounded.append({'function': 'PFlow.run with method NR / dishonest / NK (end to end)', 'runs': nv, 'counted_as_proved': False,
+                             'kind': 'bounded native: %s' % ', '.join(BPV.CASES)})
+        if badv:
+            pack.violation(name, {'bounded': True, 'inputs': badv, 'native_cmd': 'contracts/bounded_pflow_variants.py'})
